@@ -5,12 +5,12 @@
 # (4) demonstration PASSES without it. Writes confirm.json next to the patch. Removes the worktree.
 set -u
 name=$1; nosuite=${2:-}
-d=/verif/seeded/$name; base=$(cat /verif/seeded/BASE_COMMIT)
+d=/verif/seeded/$name; base=$(cat "$d/base" 2>/dev/null || cat /verif/seeded/BASE_COMMIT)
 wt=$(mktemp -d /tmp/sconf.XXXXXX); rmdir "$wt"
 git -C /repo worktree add -q --detach "$wt" "$base" || exit 2
 cleanup() { git -C /repo worktree remove --force "$wt" >/dev/null 2>&1; rm -rf "$wt"; }
 trap cleanup EXIT
-export GOFLAGS=-mod=mod
+. /verif/env.sh
 cd "$wt"
 res() { python3 - "$d/confirm.json" "$@" <<'P'
 import json,sys,os,time
